@@ -1,5 +1,5 @@
 import Updog.Generated
 namespace Updog.Facts
 open Updog.Generated
-theorem C12_facts : newRowsOnGroupBy = true ∧ prepareParsesEachTime = true ∧ rowCountIs64Bit = true := by decide
+theorem C12_facts : driverMethodSet = true ∧ newRowsOnGroupBy = true ∧ prepareParsesEachTime = true ∧ rowCountIs64Bit = true := by decide
 end Updog.Facts
